@@ -70,6 +70,13 @@ VIEW_FUNCS = {
     "adjoint", "unflatten", "from_numpy", "as_strided", "meshgrid", "index",
 }
 
+# subset of the view family that hands back the *very object* it was given when nothing needs converting (torch.as_tensor(t), t.to(t.dtype),
+# t.float() of a float tensor, t.contiguous() of a packed tensor, atleast_1d of a tensor with ndim >= 1): a metadata-only in-place
+# method (unsqueeze_, squeeze_, transpose_, ...) applied to such a result reshapes the caller's own tensor
+SAME_OBJECT_FUNCS = {"as_tensor", "atleast_1d", "atleast_2d", "atleast_3d"}
+SAME_OBJECT_METHODS = {"to", "type", "type_as", "float", "double", "half", "bfloat16", "int", "long", "short", "bool", "byte", "char", "cpu",
+                       "cuda", "contiguous", "requires_grad_", "pin_memory"}
+
 FRESH_FUNCS = set()  # everything else in torch.* / F.* is treated as fresh unless it ends with "_", takes out= or inplace=True
 
 NONTENSOR_FUNCS = {"is_tensor", "is_floating_point", "is_complex", "numel", "is_grad_enabled", "device", "Size", "finfo", "iinfo",
